@@ -1,6 +1,7 @@
 use std::cmp::Ordering;
 use std::fs::File;
 use std::ops::Bound;
+use std::sync::atomic::AtomicU64;
 use std::sync::Arc;
 
 use crossbeam_skiplist::SkipSet;
@@ -40,13 +41,19 @@ use crate::{
 /// search. Versions visible to snapshots are preserved unless hidden by a newer
 /// version in the same visibility boundary.
 pub(crate) struct SnapshotTracker {
-	snapshots: Arc<SkipSet<u64>>,
+	/// One `(seq_num, registration id)` entry per live snapshot. Several
+	/// snapshots routinely share a sequence number (every transaction begun
+	/// between two commits does), and each of them must keep that sequence
+	/// number registered until it is itself dropped.
+	snapshots: Arc<SkipSet<(u64, u64)>>,
+	next_id: Arc<AtomicU64>,
 }
 
 impl Clone for SnapshotTracker {
 	fn clone(&self) -> Self {
 		Self {
 			snapshots: Arc::clone(&self.snapshots),
+			next_id: Arc::clone(&self.next_id),
 		}
 	}
 }
@@ -68,6 +75,7 @@ impl SnapshotTracker {
 	pub(crate) fn new() -> Self {
 		Self {
 			snapshots: Arc::new(SkipSet::new()),
+			next_id: Arc::new(AtomicU64::new(0)),
 		}
 	}
 
@@ -77,7 +85,8 @@ impl SnapshotTracker {
 	/// to the tracking set, ensuring compaction will preserve versions
 	/// visible to this snapshot.
 	pub(crate) fn register(&self, seq_num: u64) {
-		self.snapshots.insert(seq_num);
+		let id = self.next_id.fetch_add(1, std::sync::atomic::Ordering::Relaxed);
+		self.snapshots.insert((seq_num, id));
 	}
 
 	/// Unregisters a snapshot with the given sequence number.
@@ -86,7 +95,17 @@ impl SnapshotTracker {
 	/// a certain sequence number are dropped, older versions become eligible
 	/// for garbage collection during compaction.
 	pub(crate) fn unregister(&self, seq_num: u64) {
-		self.snapshots.remove(&seq_num);
+		// Registrations of one sequence number are interchangeable: remove one
+		// of them, the others stay.
+		loop {
+			let Some(entry) = self.snapshots.range((seq_num, 0)..=(seq_num, u64::MAX)).next() else {
+				return;
+			};
+			if entry.remove() {
+				return;
+			}
+			// Lost a race with a concurrent unregister of the same entry; take another.
+		}
 	}
 
 	/// Returns all active snapshots as a sorted vector.
@@ -94,14 +113,16 @@ impl SnapshotTracker {
 	/// This is the primary method used by compaction. The returned vector
 	/// is sorted in ascending order.
 	pub(crate) fn get_all_snapshots(&self) -> Vec<u64> {
-		self.snapshots.iter().map(|entry| *entry).collect()
+		let mut seqs: Vec<u64> = self.snapshots.iter().map(|entry| entry.value().0).collect();
+		seqs.dedup();
+		seqs
 	}
 
 	/// Returns the smallest active snapshot seq, if any. O(log N) via
 	/// `SkipSet::front`. Used by the commit oracle to compute its GC
 	/// watermark on every commit.
 	pub(crate) fn first(&self) -> Option<u64> {
-		self.snapshots.front().map(|e| *e.value())
+		self.snapshots.front().map(|e| e.value().0)
 	}
 }
 
